@@ -209,11 +209,15 @@ pub struct ReqGen {
     pub span_ms: u64,
     pub origins: (u8, u8),
     pub allow_dup_ids: bool,
+    /// map the small key indices onto extreme u64 ids (backends store ids as signed integers)
+    pub extreme_ids: bool,
 }
+
+const EXTREME_IDS: [u64; 16] = [0, 1, 1 << 63, u64::MAX, (1 << 63) - 1, 1 << 31, u64::MAX - 1, (1 << 63) + 1, 2, 3, 1 << 32, (1 << 32) - 1, 1 << 62, 42, 255, 256];
 
 impl ReqGen {
     pub fn new(rng: StdRng, span_ms: u64, allow_dup_ids: bool) -> Self {
-        Self { rng, used: BTreeSet::new(), keys: 3, base_ms: 50_000_000, span_ms, origins: (2, 5), allow_dup_ids }
+        Self { rng, used: BTreeSet::new(), keys: 3, base_ms: 50_000_000, span_ms, origins: (2, 5), allow_dup_ids, extreme_ids: false }
     }
 
     pub fn fresh_ts(&mut self) -> HLCTimestamp {
@@ -229,11 +233,20 @@ impl ReqGen {
         }
     }
 
+    fn key(&mut self) -> Key {
+        let k = self.rng.gen_range(0..self.keys);
+        if self.extreme_ids {
+            EXTREME_IDS[k as usize % EXTREME_IDS.len()]
+        } else {
+            k
+        }
+    }
+
     fn bulk(&mut self) -> Vec<(Key, HLCTimestamp)> {
         let n = self.rng.gen_range(1..5);
         let mut v: Vec<(Key, HLCTimestamp)> = Vec::new();
         for _ in 0..n {
-            let k = self.rng.gen_range(0..self.keys);
+            let k = self.key();
             if !self.allow_dup_ids && v.iter().any(|e| e.0 == k) {
                 continue;
             }
@@ -247,14 +260,14 @@ impl ReqGen {
         let src = self.rng.gen_range(0..2usize);
         let kind = self.rng.gen_range(0..if rpc { 16 } else { 10 });
         match kind {
-            0..=2 => Req::Set { src, key: self.rng.gen_range(0..self.keys), ts: self.fresh_ts() },
-            3..=4 => Req::Del { src, key: self.rng.gen_range(0..self.keys), ts: self.fresh_ts() },
+            0..=2 => Req::Set { src, key: self.key(), ts: self.fresh_ts() },
+            3..=4 => Req::Del { src, key: self.key(), ts: self.fresh_ts() },
             5..=6 => Req::MultiSet { src, docs: self.bulk() },
             7..=8 => Req::MultiDel { src, docs: self.bulk() },
             9 => Req::Purge,
-            10 => Req::RpcPut { key: self.rng.gen_range(0..self.keys), ts: self.fresh_ts() },
+            10 => Req::RpcPut { key: self.key(), ts: self.fresh_ts() },
             11 => Req::RpcMultiPut { docs: self.bulk() },
-            12 => Req::RpcRemove { key: self.rng.gen_range(0..self.keys), ts: self.fresh_ts() },
+            12 => Req::RpcRemove { key: self.key(), ts: self.fresh_ts() },
             13 => Req::RpcMultiRemove { docs: self.bulk() },
             _ => {
                 let puts = if self.rng.gen_bool(0.7) { self.bulk() } else { vec![] };
@@ -478,6 +491,8 @@ async fn c07_case(seed: u64, i: u64, sqlite_dir: Option<&std::path::Path>) -> Ca
 }
 
 pub struct C07State {
+    /// deletes of acknowledged requests (whether or not they were still visible when looked at)
+    pub acked_deletes: Vec<(String, Key, HLCTimestamp)>,
     pub visible: Vec<(String, Key, HLCTimestamp, bool)>,
     pub trace: Vec<Value>,
     pub purged_possible: bool,
@@ -496,12 +511,15 @@ async fn c07_phase1<I: Backing>(rng: &mut StdRng, i: u64, out: &mut CaseOut, inn
     if large {
         g.keys = 16;
     }
+    // every third history uses extreme u64 ids (0, 2^63, u64::MAX, ...)
+    g.extreme_ids = i % 3 == 0;
     let nreq = if large { g.rng.gen_range(10..40) } else { g.rng.gen_range(1..10) };
     let crash_inside = g.rng.gen_bool(0.5);
     let keyspaces = ["a", "b"];
     let mut trace = Vec::new();
     // (keyspace, id, stamp, tombstone) made visible by an acknowledged request
     let mut visible: Vec<(String, Key, HLCTimestamp, bool)> = Vec::new();
+    let mut acked_deletes: Vec<(String, Key, HLCTimestamp)> = Vec::new();
     for k in 0..nreq {
         let ksn = *keyspaces.choose(&mut g.rng).unwrap();
         let last = k + 1 == nreq;
@@ -530,6 +548,9 @@ async fn c07_phase1<I: Backing>(rng: &mut StdRng, i: u64, out: &mut CaseOut, inn
                 };
                 let (live, dead) = store_listing(node.store.as_ref(), ksn).await?;
                 for (id, t, tomb) in items {
+                    if tomb {
+                        acked_deletes.push((ksn.to_string(), id, t));
+                    }
                     let there = if tomb { dead.contains(&(id, t)) } else { live.contains(&(id, t)) };
                     if there {
                         visible.push((ksn.to_string(), id, t, tomb));
@@ -550,7 +571,7 @@ async fn c07_phase1<I: Backing>(rng: &mut StdRng, i: u64, out: &mut CaseOut, inn
     // ---- stop: the group, its actors and the server are dropped (or the process exits)
     node.stop();
     ctl.park_after.store(-1, Ordering::SeqCst);
-    Ok(C07State { visible, trace, purged_possible, crash_inside })
+    Ok(C07State { acked_deletes, visible, trace, purged_possible, crash_inside })
 }
 
 /// Phase 2: a fresh node on the same storage; oracle.
@@ -578,8 +599,11 @@ async fn c07_phase2<I: Backing>(i: u64, out: &mut CaseOut, inner2: Arc<I>, st: &
         let newer_or_same = live.iter().chain(dead.iter()).any(|e| e.0 == *id && e.1 >= *t);
         // a purge may legitimately remove a tombstone that was visible, including the
         // tombstone which superseded this mutation
-        let superseded_by_visible_tombstone = visible.iter().any(|(k2, id2, t2, tomb2)| k2 == ksn && id2 == id && *tomb2 && t2 > t);
-        let purged_ok = st.purged_possible && (*tomb || superseded_by_visible_tombstone);
+        // (on the real-time runtimes the purge can even run between the acknowledgement of the
+        // delete and this monitor's look at storage, so acknowledged deletes count, seen or not)
+        let superseded_by_a_delete = visible.iter().any(|(k2, id2, t2, tomb2)| k2 == ksn && id2 == id && *tomb2 && t2 > t)
+            || st.acked_deletes.iter().any(|(k2, id2, t2)| k2 == ksn && id2 == id && t2 > t);
+        let purged_ok = st.purged_possible && (*tomb || superseded_by_a_delete);
         if !newer_or_same && !purged_ok {
             out.violate("C07:acknowledged-visible-mutation-lost-by-restart", json!({"keyspace": ksn, "id": id, "stamp": ts_json(*t), "tombstone": tomb, "trace": trace}));
         }
@@ -633,6 +657,7 @@ pub fn c07_lmdb_child(args: &Args) {
         match res {
             Ok(st) => {
                 let v = json!({
+                    "acked_deletes": st.acked_deletes.iter().map(|(k, id, t)| json!([k, id, t.as_u64()])).collect::<Vec<_>>(),
                     "visible": st.visible.iter().map(|(k, id, t, tomb)| json!([k, id, t.as_u64(), tomb])).collect::<Vec<_>>(),
                     "trace": st.trace, "purged_possible": st.purged_possible, "crash_inside": st.crash_inside,
                     "counts": out.counts.iter().map(|(k, n)| json!([k, n])).collect::<Vec<_>>(),
@@ -654,6 +679,7 @@ pub fn c07_lmdb_child(args: &Args) {
         out.inconclusive = Some("phase 1 left no state file".into());
     } else {
         let st = C07State {
+            acked_deletes: v["acked_deletes"].as_array().cloned().unwrap_or_default().iter().map(|e| (e[0].as_str().unwrap().to_string(), e[1].as_u64().unwrap(), HLCTimestamp::from_u64(e[2].as_u64().unwrap()))).collect(),
             visible: v["visible"].as_array().unwrap().iter().map(|e| (e[0].as_str().unwrap().to_string(), e[1].as_u64().unwrap(), HLCTimestamp::from_u64(e[2].as_u64().unwrap()), e[3].as_bool().unwrap())).collect(),
             trace: v["trace"].as_array().cloned().unwrap_or_default(),
             purged_possible: v["purged_possible"].as_bool().unwrap_or(true),
@@ -852,6 +878,15 @@ async fn c18_round(seed: u64, r: u64, k: usize, entry: u64, pre_yield: bool) -> 
     if creations >= 2 {
         out.count("rounds_with_overlapping_first_use", 1);
         out.nontrivial = Some(hash_of(&(r, k, entry, creations)));
+    }
+    // peers learn which keyspaces exist (and changed) from the keyspace timestamps the node
+    // advertises: the name must be there, or nobody will ever synchronise against it
+    let advertised = node.group.get_keyspace_info().await.keyspace_timestamps;
+    if !advertised.contains_key(&ksn) {
+        out.violate(
+            "C18:keyspace-in-use-not-advertised-to-peers",
+            json!({"keyspace": ksn, "advertised": advertised.keys().collect::<Vec<_>>(), "concurrent_first_uses": k, "states_created": creations}),
+        );
     }
     // a later lookup
     let ks = node.group.get_or_create_keyspace(&ksn).await;
